@@ -17,6 +17,7 @@ import (
 	"fmt"
 	"sort"
 	"strings"
+	"sync"
 
 	bnet "github.com/bio-routing/bio-rd/net"
 	"github.com/bio-routing/bio-rd/protocols/bgp/packet"
@@ -939,6 +940,7 @@ func (e dxEvent) String() string {
 // announcement replaces whatever the prefix had and a withdrawal removes the
 // prefix (RFC 4271 §3.1/§4.3).
 type dxRecorder struct {
+	mu      sync.Mutex // two goroutines may report to the recorder in the registration machine (C08)
 	addPath bool
 	events  []dxEvent
 	view    map[string]map[uint32]dxAttrs
@@ -958,6 +960,8 @@ func (r *dxRecorder) AddPath(pfx *bnet.Prefix, p *route.Path) error {
 	if r.hook != nil {
 		r.hook(true, pfx, p)
 	}
+	r.mu.Lock()
+	defer r.mu.Unlock()
 	a := dxFromReal(p)
 	id := uint32(0)
 	if p.BGPPath != nil {
@@ -983,6 +987,8 @@ func (r *dxRecorder) RemovePath(pfx *bnet.Prefix, p *route.Path) bool {
 	if r.hook != nil {
 		r.hook(false, pfx, p)
 	}
+	r.mu.Lock()
+	defer r.mu.Unlock()
 	a := dxFromReal(p)
 	id := uint32(0)
 	if p.BGPPath != nil {
